@@ -66,8 +66,8 @@ package topology
 //@   loop 3
 //@     invariant forall k in visited :: validNodes[k].Node.Labels[level.NodeLabel] == value || validNodes[k].Node.Labels[level.NodeLabel] == ""
 //@   note what the code really guarantees about the returned prefix (loop 2 invariant 3, proved): every valid node's label value at level j equals part j OR IS THE EMPTY STRING. The property-derived clause "every valid node carries exactly the returned domain's values" does NOT hold: a node with an empty label value is absorbed into whatever domain the other nodes share, and the result depends on map iteration order (replayed on the real code: n1{zone:"",rack:"r1"}, n2{zone:"z1",rack:"r1"} -> ("z1.r1","rack") in 172 of 200 runs, ("root","root") in 28). Reported as candidate finding; clause kept out of the contract.
-//@   ensures [validNodesHaveAllLabels] result2 != nil && (forall k in result2 :: result2[k] != nil && result2[k].Name == k && partOf(result2[k], levels, len(levels)) && (exists i int :: 0 <= i && i < len(nodeSet) && nodeSet[i] == result2[k]))
-//@   ensures [labelledNodesAreValid] forall i int :: 0 <= i && i < len(nodeSet) && partOf(nodeSet[i], levels, len(levels)) ==> nodeSet[i].Name in result2
+//@   lemma [validNodesHaveAllLabels] result2 != nil && (forall k in result2 :: result2[k] != nil && result2[k].Name == k && partOf(result2[k], levels, len(levels)) && (exists i int :: 0 <= i && i < len(nodeSet) && nodeSet[i] == result2[k]))
+//@   lemma [labelledNodesAreValid] forall i int :: 0 <= i && i < len(nodeSet) && partOf(nodeSet[i], levels, len(levels)) ==> nodeSet[i].Name in result2
 //@   ensures [validNodeKeysAreNamesOfNodeSet] forall k in result2 :: exists i int :: 0 <= i && i < len(nodeSet) && nodeSet[i].Name == k
 //@   ensures [levelIsRootOrALevel] result1 == rootLevel || (exists j int :: 0 <= j && j < len(levels) && result1 == levels[j].NodeLabel)
 //@ end
@@ -84,13 +84,12 @@ package topology
 //@   loop 1
 //@     invariant 0 - 1 <= rangeindex && rangeindex < len(jobAllocatableDomains)
 //@     invariant forall a int :: 0 <= a && a < len(domainNodeSets) && len(domainNodeSets[a]) > 0 ==> fresh(domainNodeSets[a])
-//@     invariant forall k in validNodes :: exists i int :: 0 <= i && i < len(nodeSet) && old(nodeSet[i].Name) == k
-//@     invariant forall a int, b int :: 0 <= a && a < len(domainNodeSets) && 0 <= b && b < len(domainNodeSets[a]) ==> domainNodeSets[a][b].Name in validNodes
+//@     invariant forall a int :: 0 <= a && a < len(domainNodeSets) ==> (forall b int :: 0 <= b && b < len(domainNodeSets[a]) ==> exists i int :: 0 <= i && i < len(nodeSet) && domainNodeSets[a][b].Name == old(nodeSet[i].Name))
 //@     decreases len(jobAllocatableDomains) - rangeindex
 //@   loop 2
 //@     invariant forall a int :: 0 <= a && a < len(domainNodeSets) && len(domainNodeSets[a]) > 0 ==> fresh(domainNodeSets[a])
-//@     invariant forall k in validNodes :: exists i int :: 0 <= i && i < len(nodeSet) && old(nodeSet[i].Name) == k
-//@     invariant forall a int, b int :: 0 <= a && a < len(domainNodeSets) && 0 <= b && b < len(domainNodeSets[a]) ==> domainNodeSets[a][b].Name in validNodes
-//@     invariant forall b int :: 0 <= b && b < len(domainNodeSet) ==> domainNodeSet[b].Name in validNodes
+//@     invariant forall a int :: 0 <= a && a < len(domainNodeSets) ==> (forall b int :: 0 <= b && b < len(domainNodeSets[a]) ==> exists i int :: 0 <= i && i < len(nodeSet) && domainNodeSets[a][b].Name == old(nodeSet[i].Name))
+//@     invariant len(domainNodeSet) > 0 ==> fresh(domainNodeSet)
+//@     invariant forall b int :: 0 <= b && b < len(domainNodeSet) ==> exists i int :: 0 <= i && i < len(nodeSet) && domainNodeSet[b].Name == old(nodeSet[i].Name)
 //@   ensures [childNodeSetsWithinParentNodeSet] result1 == nil ==> forall a int, b int :: 0 <= a && a < len(result0) && 0 <= b && b < len(result0[a]) ==> exists i int :: 0 <= i && i < len(nodeSet) && result0[a][b].Name == old(nodeSet[i].Name)
 //@ end
